@@ -53,7 +53,7 @@ ASSUMPTIONS = [
 ]
 MANIFEST = {
     'level': 'exploration',
-    'technique': 'runtime differential monitor: real text parsers + Flow.pack_nlri / NLRI.unpack_nlri vs an independent RFC 8955/8956 bit-layout codec, both directions',
+    'technique': 'runtime differential monitor: real text parsers + Flow.pack_nlri / NLRI.unpack_nlri vs an independent RFC 8955/8956 bit-layout codec, both directions; generated rules written by a real helper process to the real exabgp process, the NLRI received by a scripted peer held to the same bit-level oracle',
     'text': 'Seeded rules are written as configuration and API text, parsed and packed by the production code and the bytes '
     'are decoded by an independent reference and compared with the intended rule (order, end-of-list, AND bits, widths, '
     'length form, RD, action communities). Reference-built well-formed and one-fault NLRI are handed to the production '
@@ -112,8 +112,8 @@ def cname(afi: int, ctype: int) -> str:
 
 def plan(tier, seed):
     if tier == 'quick':
-        return [{'shard': i, 'enc': 900, 'dec': 900} for i in range(16)]
-    return [{'shard': i, 'enc': 6300, 'dec': 6300} for i in range(64)]
+        return [{'shard': i, 'enc': 900, 'dec': 900} for i in range(16)] + [{'shard': 900 + i, 'daemon': True, 'part': i, 'rules': 25} for i in range(4)]
+    return [{'shard': i, 'enc': 6300, 'dec': 6300} for i in range(64)] + [{'shard': 900 + i, 'daemon': True, 'part': i, 'rules': 150} for i in range(8)]
 
 
 # ====================================================================== generation: text rules
@@ -1257,7 +1257,95 @@ def selfcheck_vectors(res: Result) -> None:
 # ====================================================================== shard
 
 
+def run_daemon(desc):
+    """generated rules written by a REAL helper process to the REAL daemon (route { } and flat API forms), one at a time; the
+    FlowSpec NLRI a scripted peer receives in MP_REACH_NLRI is held to the same bit-level oracle (check_encoding) as in-process"""
+    import json as _json
+    import time
+
+    from vlib import daemon
+    from vlib import refwire as rw
+
+    res = Result()
+    r = random.Random(desc['seed'] * 179424673 % (2**31) + desc['part'])
+    rules = []
+    while len(rules) < desc['rules']:
+        g = gen_text_rule(r, ['api', 'api-flat'][len(rules) % 2])
+        if g['size'] > 1200 or any(rf_t in rf.PREFIX_TYPES and False for rf_t, _ in g['rule']['comps']):
+            continue
+        text = render(r, g)
+        if '\n' in text:
+            text = ' '.join(text.split())
+        g['text'] = text
+        rules.append(g)
+    script = '#sleep 1.0\n'
+    for i, g in enumerate(rules):
+        script += f'#wait g{i}\npeer * {g["text"]}\n'
+    script += f'#wait g{len(rules)}\n'
+    text = 'process player {\n    run @PY@ @DIR@/player.py @DIR@/script @DIR@/replies;\n    encoder json;\n}\n' + exa.neighbor_text(families=FAMILIES, extra='    adj-rib-out true;\n    api { processes [ player ]; }')
+    d = daemon.Daemon(text, files={'script': script})
+    peer = None
+    try:
+        d.start()
+        peer = d.accept()
+        peer.establish(65001)
+        peer.drain(quiet=0.5, limit=10)
+        for i, g in enumerate(rules):
+            want = g['rule']
+            wit = {'surface': g['surface'], 'text': g['text'][:1500], 'want': jrule(want) if g['size'] < 400 else {'size': g['size']}, 'size': g['size'], 'level': 'daemon'}
+            cls = 'daemon:' + g['surface']
+            d.wait_lines('replies', lambda ls: any(x.startswith('["wait", "g%d"' % i) for x in ls), timeout=60)
+            d.release(f'g{i}')
+            d.wait_lines('replies', lambda ls: any(x.startswith('["wait", "g%d"' % (i + 1)) for x in ls), timeout=60)
+            replies = [_json.loads(x) for x in d.lines('replies')]
+            k = max(j for j, x in enumerate(replies) if x[0] == 'sent')
+            answer = [x[1] for x in replies[k + 1 :] if x[0] == 'got']
+            msgs = [b for t, b in peer.drain(quiet=0.25, limit=10) if t == 2]
+            if any(x.strip() == 'error' for x in answer):
+                if g['size'] > 4095:
+                    res.ok('daemon:over-refused')
+                    continue
+                res.violation(f'C16/daemon:text-refused-valid:{g["surface"]}', f'valid rule refused by the daemon: {answer[:2]}', dict(wit, answer=answer), cls)
+                continue
+            nlris = []
+            for b in msgs:
+                try:
+                    wd, ab, nl = rw.split_update(bytes(b))
+                    for flags, code, value in rw.dec_attr_tlvs(ab):
+                        if code == 14 and value[2] in (133, 134):
+                            nhl = value[3]
+                            nlris.append((struct.unpack('!H', value[:2])[0], value[2], bytes(value[4 + nhl + 1 :])))
+                except rw.RefError as e:
+                    res.violation('C16/daemon:undecodable-update', str(e), wit, cls)
+            if len(nlris) != 1:
+                res.violation(f'C16/daemon:rule-not-sent:{g["surface"]}', f'the rule was answered done and {len(nlris)} FlowSpec MP_REACH_NLRI reached the peer', dict(wit, messages=[bytes(b).hex()[:200] for b in msgs]), cls)
+                continue
+            afi, safi, data = nlris[0]
+            wit['nlri'] = data.hex()[:1200]
+            if (afi, safi) != (want['afi'], want['safi']):
+                res.violation(f'C16/enc-family:{g["surface"]}', f'rule for afi/safi {want["afi"]}/{want["safi"]} is announced as {afi}/{safi}', wit, cls)
+                continue
+            sub = Result()
+            if check_encoding(sub, g, data, wit):
+                res.ok(cls, ('daemon', g['surface'], afi, safi, tuple(sorted(dict(want['comps'])))))
+                res.ok('daemon:rules')
+            for v in sub.violations:
+                res.violation(v['key'], 'at the peer of the real daemon: ' + v['what'], v['witness'], cls)
+    except daemon.Inconclusive as e:
+        daemon.skipped(res, str(e))
+    finally:
+        try:
+            if peer is not None:
+                peer.close()
+        except Exception:  # noqa
+            pass
+        d.stop()
+    return res
+
+
 def run_shard(desc):
+    if desc.get('daemon'):
+        return run_daemon(desc)
     res = Result()
     r = random.Random(desc['seed'] * 100003 + desc['shard'])
     exa.quiet()
@@ -1283,7 +1371,8 @@ def run_shard(desc):
 
 
 def finish(merged, tier, seed):
-    pass
+    if not merged['classes'].get('daemon:rules'):
+        merged['inconclusive'].append('the daemon level judged no rule')
 
 
 _ENC = (
